@@ -126,6 +126,11 @@ def run(ctx):
     rths = [val for f, stmt, name, val, conds, depth in it.assign_log if depth == 0 and name == "rth"]
     ok = len(geye) == 1 and len(thr) == 1 and thr[0].args[0] == geye[0].result and thr[0].args[1] == S("M")
     ok = ok and any(isinstance(x, Form) and x == Form.atom(("attr", geye[0].result, "threshold")) for x in rths) and any(x == thr[0].result for x in rths)
+    samp = [r for r in it.calls if r.callee == "opticomlib.devices.SAMPLER"]
+    bad_inst = [r for r in samp if not (len(r.args) > 1 and isinstance(r.args[1], Form) and r.args[1] == HALF)]
+    ctx.check("C03.3", bool(samp) and not bad_inst, fp, bad_inst[0].node if bad_inst else fp.node, "ppm.DSP [hard, no threshold given]: sampling instant",
+              "SAMPLER(x, gv.sps//2): the slot centre where the DAC places the pulse",
+              f"without a given threshold the waveform is sampled at {bad_inst[0].args[1] if bad_inst and len(bad_inst[0].args) > 1 else None!r}, not at the slot centre gv.sps//2 (n_slots samples, pulse peak)"[:300])
     ctx.check("C03.3", ok, fp, fp.node, "ppm.DSP [hard, no threshold given]: rth = eye.threshold, else THRESHOLD_EST(eye, M)", "threshold estimated from the eye of the same waveform",
               "without a given threshold the decision level is not taken from the measured eye (KDE threshold, falling back to THRESHOLD_EST(eye, M))")
     it = Interp(pkg, param_classes={"input": "electrical_signal"}, assumptions={"decision": "soft", "threshold": None, "input.noise": "none"}, no_inline=NI)
@@ -155,5 +160,5 @@ def run(ctx):
     check_late_binding(ctx, "C03.5", ["ook.DSP", "ppm.DSP", "ook.BER_analizer", "ppm.BER_analizer"])
     ctx.require_min("C03.1", 2)
     ctx.require_min("C03.2", 2)
-    ctx.require_min("C03.3", 4)
+    ctx.require_min("C03.3", 5)
     ctx.require_min("C03.4", 1)
